@@ -47,10 +47,11 @@ VARIABLES sig,        \* the signature of the function under the functor
           ovr, ign,   \* override_args / ignore_extra_args given to the constructor
           flagAt,     \* "init": the flags were given to the constructor; "call": they are passed with each call
           res,        \* outcome of the last Construct / Call
+          rep,        \* what the functor must report as its arguments (sym_init_args) after the step
           act,        \* the last call, for the replay driver
           steps
 
-vars == <<sig, phase, bound, vargs, ovr, ign, flagAt, res, act, steps>>
+vars == <<sig, phase, bound, vargs, ovr, ign, flagAt, res, rep, act, steps>>
 
 -----------------------------------------------------------------------------
 Sigs == {[npos |-> n, ndef |-> d, va |-> va, k1 |-> k1, k2 |-> k2, vk |-> vk] :
@@ -109,7 +110,7 @@ ConstructVargs(s, c) == IF c.nargs > s.npos THEN [k \in 1..(c.nargs - s.npos) |-
 CallPos(s, c) == {p \in PosParams(s) : p <= c.nargs}
 CallError(s, b, c, ov, ig) ==
   IF c.nargs > s.npos /\ ~s.va /\ ~ig THEN "toomany"
-  ELSE IF ~ov /\ (CallPos(s, c) \cup c.kw) \cap (DOMAIN b) # {} THEN "multiple"      \* rebinding needs override_args
+  ELSE IF ~ov /\ (CallPos(s, c) \cup c.kw) \cap (DOMAIN b) # {} THEN "rebound"       \* rebinding needs override_args
   ELSE IF ~AsCoded /\ CallPos(s, c) \cap c.kw # {} THEN "multiple"                    \* twice in the same call
   ELSE IF (c.kw \ Named(s)) # {} /\ ~s.vk /\ ~ig THEN "unexpected"
   ELSE "ok"
@@ -149,8 +150,8 @@ Reported(s, b) == [p \in Named(s) |-> IF p \in DOMAIN b THEN b[p] ELSE IF HasDef
 P(S) == IF SimK = 0 \/ S = {} THEN S ELSE RandomSubset(IF SimK < Cardinality(S) THEN SimK ELSE Cardinality(S), S)
 NoRes == Err("none")
 
-Init == /\ sig \in P(WFSigs) /\ phase = "new" /\ bound = EmptyMap /\ vargs = <<>> /\ ovr = FALSE /\ ign = FALSE
-        /\ flagAt = "call" /\ res = NoRes /\ act = <<"Init">> /\ steps = 0
+Init == /\ sig \in WFSigs /\ phase = "new" /\ bound = EmptyMap /\ vargs = <<>> /\ ovr = FALSE /\ ign = FALSE
+        /\ flagAt = "call" /\ res = NoRes /\ act = <<"Init">> /\ steps = 0 /\ rep = EmptyMap
 
 Construct(c, o, g, fa) ==
   /\ phase = "new"
@@ -161,34 +162,35 @@ Construct(c, o, g, fa) ==
           THEN /\ phase' = "built" /\ bound' = ConstructBound(sig, c) /\ vargs' = ConstructVargs(sig, c)
                /\ ovr' = o /\ ign' = g /\ flagAt' = fa
           ELSE UNCHANGED <<phase, bound, vargs, ovr, ign, flagAt>>
+  /\ rep' = IF phase' = "built" THEN Reported(sig, bound') ELSE EmptyMap
   /\ act' = <<"Construct", c.nargs, c.kw, o, g, fa>>
   /\ steps' = steps + 1 /\ UNCHANGED sig
 
 SetAttr(n) ==
   /\ phase = "built" /\ n \in Named(sig)
   /\ bound' = Override(bound, [m \in {n} |-> 500 + n])
-  /\ act' = <<"SetAttr", n>> /\ res' = NoRes /\ steps' = steps + 1
+  /\ act' = <<"SetAttr", n>> /\ res' = NoRes /\ steps' = steps + 1 /\ rep' = Reported(sig, bound')
   /\ UNCHANGED <<sig, phase, vargs, ovr, ign, flagAt>>
 
 DelAttr(n) ==
   /\ phase = "built" /\ n \in (DOMAIN bound) \cap Named(sig)
   /\ bound' = Restrict(bound, (DOMAIN bound) \ {n})
-  /\ act' = <<"DelAttr", n>> /\ res' = NoRes /\ steps' = steps + 1
+  /\ act' = <<"DelAttr", n>> /\ res' = NoRes /\ steps' = steps + 1 /\ rep' = Reported(sig, bound')
   /\ UNCHANGED <<sig, phase, vargs, ovr, ign, flagAt>>
 
 Rebind(S) ==
   /\ phase = "built" /\ S # {} /\ S \subseteq Named(sig)
   /\ bound' = Override(bound, [m \in S |-> 600 + m])
-  /\ act' = <<"Rebind", S>> /\ res' = NoRes /\ steps' = steps + 1
+  /\ act' = <<"Rebind", S>> /\ res' = NoRes /\ steps' = steps + 1 /\ rep' = Reported(sig, bound')
   /\ UNCHANGED <<sig, phase, vargs, ovr, ign, flagAt>>
 
 \* replacing the functor by its clone keeps everything, flags included
 Clone == /\ phase = "built" /\ act' = <<"Clone">> /\ res' = NoRes /\ steps' = steps + 1
-         /\ UNCHANGED <<sig, phase, bound, vargs, ovr, ign, flagAt>>
+         /\ UNCHANGED <<sig, phase, bound, vargs, ovr, ign, flagAt, rep>>
 \* a JSON round trip keeps the arguments; the two flags are not arguments, so afterwards they travel with the call
 JsonRT == /\ phase = "built" /\ act' = <<"JsonRT">> /\ res' = NoRes /\ steps' = steps + 1
           /\ flagAt' = "call" /\ ovr' = FALSE /\ ign' = FALSE
-          /\ UNCHANGED <<sig, phase, bound, vargs>>
+          /\ UNCHANGED <<sig, phase, bound, vargs, rep>>
 
 Call(c, ov, ig) ==
   /\ phase = "built"
@@ -198,17 +200,24 @@ Call(c, ov, ig) ==
   /\ res' = CallOutcome(sig, bound, vargs, c, ov, ig)
   /\ act' = <<"Call", c.nargs, c.kw, ov, ig>>
   /\ steps' = steps + 1
-  /\ UNCHANGED <<sig, phase, bound, vargs, ovr, ign, flagAt>>
+  /\ UNCHANGED <<sig, phase, bound, vargs, ovr, ign, flagAt, rep>>
 
 \* dropping the functor: the walk may build another one for the same function
 Drop == /\ phase = "built" /\ phase' = "new" /\ bound' = EmptyMap /\ vargs' = <<>> /\ ovr' = FALSE /\ ign' = FALSE
-        /\ flagAt' = "call" /\ res' = NoRes /\ act' = <<"Drop">> /\ steps' = steps + 1 /\ UNCHANGED sig
+        /\ flagAt' = "call" /\ res' = NoRes /\ act' = <<"Drop">> /\ steps' = steps + 1 /\ rep' = EmptyMap /\ UNCHANGED sig
 
-Next == \/ \E c \in P(Calls), o \in BOOLEAN, g \in BOOLEAN, fa \in {"init", "call"} : Construct(c, o, g, fa)
-        \/ \E n \in Named(sig) : SetAttr(n) \/ DelAttr(n)
-        \/ \E S \in SubsetsUpTo(Named(sig), 2) : Rebind(S)
-        \/ Clone \/ JsonRT \/ Drop
-        \/ \E c \in P(Calls), ov \in BOOLEAN, ig \in BOOLEAN : Call(c, ov, ig)
+\* simulation only: mostly arguments that the step accepts, plus a few arbitrary ones
+CtorCalls == IF SimK = 0 THEN Calls
+             ELSE P({c \in Calls : ConstructOutcome(sig, c) = "ok"}) \cup RandomSubset(1, Calls)
+CallCalls == IF SimK = 0 THEN Calls
+             ELSE P({c \in Calls : \E ov \in BOOLEAN : CallOutcome(sig, bound, vargs, c, ov, FALSE).err = "ok"})
+                  \cup RandomSubset(2, Calls)
+Next == /\ steps < MaxSteps        \* (a guard rather than a state constraint: successors beyond the bound are not even built)
+        /\ \/ \E c \in CtorCalls, o \in BOOLEAN, g \in BOOLEAN, fa \in {"init", "call"} : Construct(c, o, g, fa)
+           \/ \E n \in Named(sig) : SetAttr(n) \/ DelAttr(n)
+           \/ \E S \in SubsetsUpTo(Named(sig), 2) : Rebind(S)
+           \/ Clone \/ JsonRT \/ Drop
+           \/ \E c \in CallCalls, ov \in BOOLEAN, ig \in BOOLEAN : Call(c, ov, ig)
 Spec == Init /\ [][Next]_vars
 StepBound == steps <= MaxSteps
 \* exhaustive configs of depth > 2: only the last step is a Call (a call changes nothing, so nothing is lost)
@@ -220,7 +229,8 @@ TypeOK == /\ sig \in WFSigs /\ phase \in {"new", "built"}
           /\ DOMAIN bound \subseteq Named(sig) \cup (IF sig.vk THEN KwNames ELSE {})
           /\ (vargs # <<>>) => sig.va
           /\ (phase = "new") => (bound = EmptyMap /\ vargs = <<>>)
-          /\ res.err \in {"none", "ok", "toomany", "multiple", "unexpected", "missing"}
+          /\ rep = (IF phase = "built" THEN Reported(sig, bound) ELSE EmptyMap)
+          /\ res.err \in {"none", "ok", "toomany", "multiple", "rebound", "unexpected", "missing"}
 
 \* the effective direct call is well defined: binding it gives exactly the merged arguments
 EffectiveWellDefined ==
